@@ -40,6 +40,8 @@ def run(rec, cfg):
     from ..workloads import histories as W8b
 
     W8b.two_parsers(rec, rng, corp, "C10", cfg.scale(6, 200))
+    if cfg.shard == 2 % cfg.nshards:
+        W8b.marathon(rec, rng, "C10")
     seen = set()
 
     def one(s, parser=None):
@@ -166,6 +168,12 @@ def outcome(p, q):
 
 
 def replay(rec, cfg, w):
+    if w.get("marathon") or any(isinstance(h, (list, tuple)) and len(h) > 1 and str(h[1]).endswith("w + 1") for h in (w.get("history") or [])[-50:]):
+        from ..workloads import histories as _W9
+
+        MP.attach_parser("C10", {"grammar", "closure", "history"})
+        _W9.marathon(rec, cfg.rng("replay-marathon"), "C10")
+        return
     if w.get("two_parsers"):
         from ..workloads import histories as _W8
         from ..workloads import text as _WT2
